@@ -1474,14 +1474,16 @@ class Interp:
         if isinstance(container, (list, tuple)):
             return z_or(*[self.py_eq(x, item) for x in container])
         if isinstance(container, (set, frozenset)):
-            if not is_sym(item):
+            if not self.B._has_sym(item):
                 try:
-                    if all(not is_sym(x) for x in container):
+                    if all(not self.B._has_sym(x) for x in container):
                         return item in container
                 except TypeError:
                     pass
             return z_or(*[self.py_eq(x, item) for x in container])
         if isinstance(container, dict):
+            if isinstance(item, tuple) and self.B._has_sym(item):
+                return z_or(*[self.py_eq(k, item) for k in container])
             if not is_sym(item) and not self.B.has_symkeys(container):
                 try:
                     return item in container
